@@ -38,10 +38,10 @@ func genSyncCfg(r *rng, profile string) syncCfg {
 }
 
 type syncObs struct {
-	refs, delay, status   int
-	extra, mapped         bool
-	devMapped, devAlive   bool
-	viol                  int
+	refs, delay, status int
+	extra, mapped       bool
+	devMapped, devAlive bool
+	viol                int
 }
 
 type syncHist struct {
@@ -217,7 +217,7 @@ func (h *syncHist) exec(f []string) {
 	}
 	fmt.Fprintln(h.out, res)
 	rf := strings.Fields(res)
-	h.st.results[kind+":"+strings.Join(rf[1:min(len(rf), 3)], ":")]++
+	h.st.results[resKey(kind, rf)]++
 	fmt.Fprintln(h.out, strings.TrimSpace("CALLS "+strings.Join(cs, " ")))
 	after := h.observe()
 	h.emit(after)
@@ -251,14 +251,14 @@ func (h *syncHist) exec(f []string) {
 	}
 
 	// ---- oracles
+	if h.tainted {
+		return
+	}
 	if rejectable {
 		// the operation asks for more than the caller holds: it must change nothing
 		if before != after || len(calls) > 0 {
 			h.fail("C13", "sync:U:rejected-changed-state", line)
 		}
-		return
-	}
-	if h.tainted {
 		return
 	}
 	if panicked {
